@@ -1,7 +1,7 @@
 """Property registry: which contract modules serve which property, and what
 each claim leaves unverified (text copied into every evidence file)."""
 
-ALL_MODULES = ["contracts.c17", "contracts.c12", "contracts.c13", "contracts.c18", "contracts.c09", "contracts.c05", "contracts.c16", "contracts.c04"]
+ALL_MODULES = ["contracts.c17", "contracts.c12", "contracts.c13", "contracts.c18", "contracts.c09", "contracts.c05", "contracts.c16", "contracts.c04", "contracts.c02", "contracts.c11"]
 
 SPECS = {
     "C17": {
@@ -52,5 +52,19 @@ SPECS = {
         "level_note": "Trusted: ONNX integer operator semantics (A11, no int64 overflow), the JAX normal form of dimension expressions, per-kind injectivity of str() on expression objects, OriginInv given truthful declared input shapes. _shapes_compatible/_broadcast_shape_dims and the reshape/broadcast plugin lowerings that consume the lowered dimensions are not under contract in this revision.",
         "design_ref": "DESIGN.md §4.4",
         "unverified_part": "LowerDimExpr.__call__ (Concat of several dims), dim_as_value plugin, _as_sds_list shared scope, optimizer shape comparisons (_shapes_compatible: C02), plugin lowerings that consume the dimension values, int64 overflow.",
+    },
+    "C02": {
+        "modules": ALL_MODULES,
+        "level_text": "Partial claim. Proved for all inputs: (1) every operator table the rewrites consult is included in a specification table of pointwise operators written from the ONNX documentation, and every accepted operator has exactly one output in every opset (checked mechanically against onnx.defs) - a non-pointwise or multi-output operator added to a table fails a named obligation; (2) the guard kernels: _is_inverse_perm implies perm1[perm2[k]] = k (hypothesis of Tr(p2,Tr(p1,x)) = x), _shapes_compatible implies equal rank and pairwise equal ints or the same non-empty symbol (equal for every binding), _value_is_graph_output / _value_escapes are exact (graph output by identity or name, or nested-body reference), _side_inputs_are_scalar implies every other operand is a broadcast scalar, _v_name; (3) the integer range proof of C17 (also a C02 rewrite guard).",
+        "level_note": "The rewrite transactions themselves (that each pass only fires under these guards and performs the declared rewiring) are NOT yet under contract in this revision: a deleted guard call inside a pass is not detected by C02's obligations (the end-to-end witness families are replay material only). Trusted: operator classification tables of specs/onnx_ops.py, assumed contracts of _nested_graph_references_value and _is_scalar_const_value, the four external onnx_ir passes.",
+        "design_ref": "DESIGN.md §4.2",
+        "unverified_part": "all 16 rewrite transactions (pattern facts, effects, law lemmas), the collectors, the external onnx_ir passes (NameFix, CSE, LiftConstants, RemoveUnusedNodes), exception atomicity inside a transaction.",
+    },
+    "C11": {
+        "modules": ALL_MODULES,
+        "level_text": "Partial claim. For every emission site (found mechanically in every source file) of an operator whose first ONNX version is newer than opset 21, the conditions that dominate the site in the AST are translated to a formula over the integer opset and discharged by z3: 'dominating conditions imply opset >= first version of the operator', for all opsets at once. FunctionScope.__init__ is proved to create the body context with the opset, precision and normalization mode of the enclosing model (so the guards in function bodies see the declared opset). Three unguarded sites (CumProd x2, BitCast) are known findings, re-derived on every run.",
+        "level_note": "Trusted: operator first-versions from the installed onnx.defs; expressions recognised as 'the opset' denote the declared opset; IRContext.__init__ stores its arguments (bound with the real signature). Attribute/type-constraint changes of operators revised after opset 21, Loop/If body contexts (make_subgraph_context), numeric agreement across opsets and ORT loading are not covered.",
+        "design_ref": "DESIGN.md §4.11",
+        "unverified_part": "operators that exist at 21 but changed signature later (69 operators), builder_reduce_with_axes axes-as-input table, make_subgraph_context (Loop/If bodies), numeric equality across opsets, loading in ONNX Runtime.",
     },
 }
